@@ -288,7 +288,7 @@ example : parsePackets ((⟨7, 0x3f800000, [1, 2, 3]⟩ : Raw).encode ++ (⟨0x9
 /-! ### the top of the pipeline: `ReplayParser.get_info` (model: `ReplayModel/Pipeline.lean`) -/
 
 /-- the lenient packet loop never reports a raised packet -/
-theorem lenient_no_raise' (jsonOk : Bytes → Bool) (cfg : Config) (ps : List NetPacket) :
+theorem lenient_loop_no_raise (jsonOk : Bytes → Bool) (cfg : Config) (ps : List NetPacket) :
     ∀ (w : World) (i : Nat) (failed : List (Nat × Err)),
     (playPackets jsonOk cfg false w i ps failed).2.1 = none := by
   induction ps with
@@ -331,7 +331,7 @@ theorem getInfo_written (env : Env) (E : Bytes → Bytes) (ext : String) (game :
         failed := (playPackets env.jsonOk (configOf env game sel) false {} 0 (rs.map Raw.packet) []).2.2 } := by
     simp only [play, frames_encode rs hrs]
     have : (playPackets env.jsonOk (configOf env game sel) false {} 0 (rs.map Raw.packet) []).2.1 = none :=
-      lenient_no_raise' _ _ _ _ _ _
+      lenient_loop_no_raise _ _ _ _ _ _
     simp only [this, endingOf]
   rw [hplay]
 
